@@ -279,8 +279,9 @@ fn c11_stream(st: &SRes, what: &str, v: &mut Vec<Finding>) {
     }
   }
   for (k, l) in [("source", &srcs), ("name", &names)] {
-    let mut u: Vec<u32> = l.to_vec(); u.sort(); u.dedup();
-    if u.iter().enumerate().any(|(i, x)| *x != i as u32) { v.push(finding("dense", format!("{what}: announced {k} indices {:?}", l))); }
+    // dense from zero, each index announced once, in order (the `DeclOK` of the theorems: an index announced twice — under two
+    // names — is the defect F15 / seed S90)
+    if l.iter().enumerate().any(|(i, x)| *x != i as u32) { v.push(finding("dense", format!("{what}: announced {k} indices {:?}", l))); }
   }
 }
 /// per announced index: ordinal of the last chunk before its announcement, ordinal of the first chunk using it
@@ -304,7 +305,14 @@ pub fn c11() -> TreeProp {
     id: "C11",
     gen: Box::new(|rng, thorough| {
       let cfg = ascii_cfg(if thorough { 4 } else { 3 });
-      let t = TreeGen::new().tree(rng, &cfg, cfg.depth, false);
+      let mut t = TreeGen::new().tree(rng, &cfg, cfg.depth, false);
+      // every fourth case is a combined SourceMapSource (inner source map) with the shapes of C09's generator — self-named inner
+      // sources, files named like the generated text —, bare or under a ReplaceSource / CachedSource (seed S90)
+      if rng.chance(4) {
+        let c0 = GenCfg::ascii(0);
+        let leaf = loop { if let x @ T::Sms { .. } = crate::gen::gen_combined(rng, &c0) { break x } };
+        t = match rng.below(3) { 0 => leaf, 1 => T::Replace(Box::new(leaf), vec![]), _ => T::Cached(900, Box::new(leaf)) };
+      }
       // maps and streams once more at the end: by then every CachedSource in the tree answers from its cache
       single(t, vec![Op::Src, Op::Map(true), Op::Map(false), Op::Stream(true, false), Op::Stream(false, false), Op::Stream(true, true), Op::Stream(false, true), Op::Map(true), Op::Map(false), Op::Stream(true, false), Op::Stream(true, true)], "C11")
     }),
